@@ -105,7 +105,7 @@ def params_from_cmd(config: Params) -> None:
             # main test restriction part
             tests_str += "%s %s\n" % (key, value)
         elif key.startswith("only_") or key.startswith("no_"):
-            if re.match("(only|no)_nets", key):
+            if re.fullmatch("(only|no)_nets", key):
                 if with_explicit_nets:
                     raise ValueError(
                         f"Cannot specify a nets restriction {key}={value} together with "
@@ -120,7 +120,7 @@ def params_from_cmd(config: Params) -> None:
                 )
             else:
                 for vm_name in available_vms:
-                    if re.match(f"(only|no)_{vm_name}", key):
+                    if re.fullmatch(f"(only|no)_{re.escape(vm_name)}", key):
                         # escape defaults for this vm and use the command line
                         use_vms_default[vm_name] = False
                         # main vm restriction part
